@@ -199,6 +199,11 @@ func C19Scenario(tier string) *engine.Scenario {
 			fixed(Tx("store", "store(33,r2)", StoreMsg(w, StoreP{Signer: world.O, Relayer: world.G, Gateway: world.G, DataId: "33333333-3333-3333-3333-333333333333", CommitId: "33333333-3333-3333-3333-333333333333", Size: 1000, Replica: 2, Duration: 3600, Timeout: 1000}))),
 			CompleteNth(3, 0))
 		s3 := w.A(world.S3)
+		// an ordinary node that has declared every service bit for itself (fishing and indexing included): the status
+		// word is self-service, the fishman designation is not
+		pn := w.A(world.P)
+		st = append(st, fixed(Tx("create", "create(P)", &nodetypes.MsgCreate{Creator: pn.S()})),
+			fixed(Tx("reset", "reset(P,all-bits)", &nodetypes.MsgReset{Creator: pn.S(), Status: FullStatus | nodetypes.NODE_STATUS_SERVE_INDEXING | nodetypes.NODE_STATUS_SERVE_FISHING})))
 		st = append(st, fixed(Tx("create", "create(S3)", &nodetypes.MsgCreate{Creator: s3.S()})),
 			fixed(Tx("reset", "reset(S3,full)", &nodetypes.MsgReset{Creator: s3.S(), Status: FullStatus})),
 			fixed(Tx("addv", "addv(S3)", &nodetypes.MsgAddVstorage{Creator: s3.S(), Size_: 10_000_000})))
@@ -251,7 +256,7 @@ func C19Scenario(tier string) *engine.Scenario {
 			for _, id := range o3.Shards {
 				vs = append(vs, variant{fmt.Sprintf("exact-o3-s%d", id), saotypes.Fault{DataId: o3.DataId, OrderId: 3, ShardId: id, CommitId: "zz", Provider: accused}, accused})
 			}
-			for _, ri := range []int{world.W, world.Q, world.G, world.X} {
+			for _, ri := range []int{world.W, world.Q, world.G, world.P, world.X} {
 				for _, v := range vs {
 					if ri != world.W && !strings.HasPrefix(v.name, "exact") && tier != "thorough" {
 						continue
@@ -269,7 +274,7 @@ func C19Scenario(tier string) *engine.Scenario {
 				out = append(out, Tx("report", fmt.Sprintf("report(by=W,accused=%s,list[bad,good,bad])", w.NameOf(accused)),
 					&saotypes.MsgReportFaults{Creator: w.A(world.W).S(), Provider: accused, Faults: []*saotypes.Fault{&bad1, &good, &bad2}}))
 			}
-			for _, ri := range []int{world.S1, world.S2, world.W, world.G, world.X} {
+			for _, ri := range []int{world.S1, world.S2, world.W, world.G, world.P, world.X} {
 				f := saotypes.Fault{DataId: world.Data1, OrderId: 1, ShardId: mine, CommitId: o1.Commit, Provider: accused}
 				out = append(out, Tx("recover", fmt.Sprintf("recover(by=%s,accused=%s)", w.A(ri).Name, w.NameOf(accused)),
 					&saotypes.MsgRecoverFaults{Creator: w.A(ri).S(), Provider: accused, Faults: []*saotypes.Fault{&f}}))
